@@ -141,7 +141,7 @@ def fold_program(pid, kind, nb, rng):
 # ------------------------------------------------------------------------------------------
 # nestings
 
-def inner_invocation(kind, v, depth_names, counter, first=None):
+def inner_invocation(kind, v, depth_names, counter, first=None, width=2):
     """An invocation of `kind` computing v + 21 from the expression text `v` (u64) — or `first` + 20 if the initial
     value of its first branch is given (used to nest a third macro inside it).
     Returns (expression text yielding u64 synchronously or a future of u64 if kind is async, is_async)."""
@@ -155,15 +155,31 @@ def inner_invocation(kind, v, depth_names, counter, first=None):
     else:
         plus = " + 1"
     v = v + plus
+    # wide variants: `width` - 2 further branches that contribute 0 (a step with many active branches, nested)
+    xs = ["x%d" % i for i in range(width - 2)]
+    xparams = "".join(", %s" % x for x in xs)
+    xsum = "".join(" + %s" % x for x in xs)
     if asy:
         if is_try:
-            body = "%s! { futures::future::ok::<u64, u8>(%s) |> |r| { zt(%d); r }, futures::future::ok::<u64, u8>(20) |> |r| { zt(%d); r }, map => |a, b| a + b }" % (kind, v, a, a + 1)
+            extra = "".join(" futures::future::ok::<u64, u8>(0)," for _ in xs)
+            body = "%s! { futures::future::ok::<u64, u8>(%s) |> |r| { zt(%d); r }, futures::future::ok::<u64, u8>(20) |> |r| { zt(%d); r },%s map => |a, b%s| a + b%s }" % (kind, v, a, a + 1, extra, xparams, xsum)
             return "async move { %s.await.unwrap() }" % body, True
-        body = "%s! { futures::future::ready(%s) |> |x| { zt(%d); x }, futures::future::ready(20u64) |> |x| { zt(%d); x }, then => |a, b| futures::future::ready(a + b) }" % (kind, v, a, a + 1)
+        extra = "".join(" futures::future::ready(0u64)," for _ in xs)
+        body = "%s! { futures::future::ready(%s) |> |x| { zt(%d); x }, futures::future::ready(20u64) |> |x| { zt(%d); x },%s then => |a, b%s| futures::future::ready(a + b%s) }" % (kind, v, a, a + 1, extra, xparams, xsum)
         return body, True
+    if width > 2:
+        extra = "".join(" Some(0u64)," for _ in xs)
+        if is_try:
+            return "%s! { Some(%s) |> |x| { zt(%d); x }, Some(20u64) |> |x| { zt(%d); x },%s map => |a, b%s| a + b%s }.unwrap()" % (kind, v, a, a + 1, extra, xparams, xsum), False
+        xo = "".join(", %s: Option<u64>" % x for x in xs)
+        xu = "".join(" + %s.unwrap()" % x for x in xs)
+        return "%s! { Some(%s) |> |x| { zt(%d); x }, Some(20u64) |> |x| { zt(%d); x },%s then => |a: Option<u64>, b: Option<u64>%s| a.unwrap() + b.unwrap()%s }" % (kind, v, a, a + 1, extra, xo, xu), False
+    # thread-spawning inner macros: the two branches meet at a rendezvous — nested or not, the branches of a step are
+    # alive at the same time (`rdv` adds 0 when both are inside together, 1000 when one waited in vain)
+    r0 = " + rdv(%d, 2)" % a if "spawn" in kind else ""
     if is_try:
-        return "%s! { Some(%s) |> |x| { zt(%d); x }, Some(20u64) |> |x| { zt(%d); x }, map => |a, b| a + b }.unwrap()" % (kind, v, a, a + 1), False
-    return "%s! { Some(%s) |> |x| { zt(%d); x }, Some(20u64) |> |x| { zt(%d); x }, then => |a: Option<u64>, b: Option<u64>| a.unwrap() + b.unwrap() }" % (kind, v, a, a + 1), False
+        return "%s! { Some(%s) |> |x| { zt(%d); x%s }, Some(20u64) |> |x| { zt(%d); x%s }, map => |a, b| a + b }.unwrap()" % (kind, v, a, r0, a + 1, r0), False
+    return "%s! { Some(%s) |> |x| { zt(%d); x%s }, Some(20u64) |> |x| { zt(%d); x%s }, then => |a: Option<u64>, b: Option<u64>| a.unwrap() + b.unwrap() }" % (kind, v, a, r0, a + 1, r0), False
 
 
 def expected_names(kinds, caller="main"):
@@ -179,7 +195,7 @@ def expected_names(kinds, caller="main"):
     return rec
 
 
-def nest_program(pid, outer, inner, position, rng, third=None):
+def nest_program(pid, outer, inner, position, rng, third=None, width=2):
     """outer { branch0 uses inner in `position` (operand / capture / handler), branch1 plain }.
     Async inner under sync outer is driven by its own runtime (run_async_val); async outer awaits async inner
     and runs sync inner inline."""
@@ -198,7 +214,7 @@ def nest_program(pid, outer, inner, position, rng, third=None):
             first = innermost_expr
         inner_expr, inner_is_fut = inner_invocation(inner, v, None, counter, first=first)
     else:
-        inner_expr, inner_is_fut = inner_invocation(inner, v, None, counter)
+        inner_expr, inner_is_fut = inner_invocation(inner, v, None, counter, width=width)
     # value of using the inner macro on v, as a sync u64 expression
     if inner_is_fut:
         sync_use = "run_async_val(%s)" % inner_expr if not o_asy else None
@@ -292,6 +308,8 @@ def nest_program(pid, outer, inner, position, rng, third=None):
     ref_names = " ".join("zn(%d, %s);" % (10 + b, rs(names[b])) for b in range(2))
     ranges = [(10, 11), (11, 12), (1, 10)]
     tags = "nest,nest:%s,pair:%s>%s" % (position, outer, inner)
+    if width > 2:
+        tags = "nest,nest:%s,widenest:%d:%s>%s" % (position, width, outer, inner)
     if third:
         # the innermost macro is evaluated as the initial value of the middle macro's branch 0: in that branch's
         # thread if the middle macro spawns threads (and has >1 active branch, which it has)
@@ -419,6 +437,13 @@ def build_corpus(tier, seed):
         for position in ("operand", "capture", "handler"):
             entries.append(nest_program(pid, outer, inner, position, rng))
             pid += 1
+    # (b') a wide inner macro (a step with 6 / 11 active branches) in operand position of every outer kind: whatever the
+    # expansion does for many branches, it must still be usable where the outer kind needs Send / 'static
+    for outer, inner in itertools.product(ALL, repeat=2):
+        if tier == "quick" and not ("spawn" in outer or "async" in inner):
+            continue
+        entries.append(nest_program(pid, outer, inner, "operand", rng, width=6 if (pid % 2 == 0 or tier == "quick") else 11))
+        pid += 1
     # (c) depth 3: every ordered triple in operand position (thorough), a seeded sample of 72 (quick)
     triples = list(itertools.product(ALL, repeat=3))
     if tier == "quick":
